@@ -24,7 +24,7 @@ ALIAS = ['same', 'fullview', 'transposed', 'reversed', 'overlap', 'left-is-view'
 BIN = {'add': operator.add, 'sub': operator.sub, 'mul': operator.mul, 'div': operator.truediv, 'pow': operator.pow,
        'dot': algopy.dot, 'outer': algopy.outer, 'minimum': algopy.minimum, 'maximum': algopy.maximum}
 IOP = {'iadd': operator.iadd, 'isub': operator.isub, 'imul': operator.imul, 'idiv': operator.itruediv}
-REQUIRED = ['immutability:op', 'immutability:pb', 'immutability:tracer', 'alias:floordiv', 'alias:iouter', 'retained-inputs'] + ['alias:' + k for k in BIN] + ['alias:' + k for k in IOP]
+REQUIRED = ['immutability:op', 'immutability:pb', 'immutability:tracer', 'alias:floordiv', 'alias:iouter', 'retained-inputs', 'subclass-operands'] + ['alias:' + k for k in BIN] + ['alias:' + k for k in IOP]
 
 _mon = None
 
@@ -57,6 +57,8 @@ def cases(tier, seed):
             out.append({'kind': 'retained', 'seed': case_seed('C14', seed, 'retained', D, P, k), 'params': {'D': D, 'P': P}})
         for k in range(3):
             out.append({'kind': 'iouter', 'seed': case_seed('C14', seed, 'iouter', D, P, k), 'params': {'D': D, 'P': P, 'which': k}})
+        for k in range(3):
+            out.append({'kind': 'subclass', 'seed': case_seed('C14', seed, 'subclass', D, P, k), 'params': {'D': D, 'P': P, 'which': k}})
         for k in range(2):
             out.append({'kind': 'floordiv', 'seed': case_seed('C14', seed, 'floordiv', D, P, k), 'params': {'D': D, 'P': P}})
     return out
@@ -153,6 +155,44 @@ def _retained(ctx, p, rng):
     ctx.ok('retained-inputs', ('retained', q.name, D, P))
 
 
+class _UserUTPM(UTPM):
+    """what a user's own subclass looks like"""
+
+
+def _subclass(ctx, p, rng):
+    """operands that are instances of a subclass of UTPM (algopy.UTP with either coefficient convention, a user's own subclass):
+    every function, operator and copy leaves them as they were, and a copy that is then changed in place is a copy"""
+    D, P, which = p['D'], p['P'], p['which']
+    shape = [(3,), (2, 2), ()][int(rng.integers(3))]
+    data = gen.series_data(rng, D, P if which != 0 else 1, shape, 'pos', 'random', False, 0.3)
+    if which == 0:
+        mk = lambda: algopy.UTP(data[:, 0].copy(), vectorized=False)
+        if not shape and D == 1:
+            pass
+    elif which == 1:
+        mk = lambda: algopy.UTP(data.copy(), vectorized=True)
+    else:
+        mk = lambda: _UserUTPM(data.copy())
+    tag = ['UTP', 'UTP-vectorized', 'user-subclass'][which]
+    acts = [('exp', lambda x, y: algopy.exp(x)), ('log', lambda x, y: algopy.log(x)), ('sqrt', lambda x, y: np.sqrt(x)), ('sin', lambda x, y: algopy.sin(x)),
+            ('method-exp', lambda x, y: x.exp()), ('tan', lambda x, y: algopy.tan(x)), ('neg', lambda x, y: -x), ('abs', lambda x, y: abs(x)),
+            ('add', lambda x, y: x + y), ('mul', lambda x, y: x * y), ('div', lambda x, y: x / y), ('rdiv', lambda x, y: 2.0 / x), ('pow', lambda x, y: x ** 2.5),
+            ('mul-self', lambda x, y: x * x), ('copy-then-imul', lambda x, y: x.copy().__imul__(y)), ('clone-then-iadd', lambda x, y: x.clone().__iadd__(y)),
+            ('copy-then-idiv', lambda x, y: x.copy().__itruediv__(y)), ('clone-then-isub-self', lambda x, y: x.clone().__isub__(x)),
+            ('clone-then-setitem', lambda x, y: x.clone().__setitem__(Ellipsis, 0.0)), ('deepcopy-then-imul', lambda x, y: __import__('copy').deepcopy(x).__imul__(y)),
+            ('sum', lambda x, y: algopy.sum(x)), ('T', lambda x, y: x.T), ('zeros_like', lambda x, y: algopy.zeros_like(x)), ('square', lambda x, y: algopy.square(x))]
+    for name, act in acts:
+        x, y = mk(), mk()
+        snapx, snapy = x.data.copy(), y.data.copy()
+        try:
+            act(x, y)
+        except Exception:
+            ctx.skip('unsupported:subclass:%s:%s' % (tag, name)); continue
+        if x.data.shape != snapx.shape or not np.array_equal(x.data, snapx) or not np.array_equal(y.data, snapy):
+            ctx.violation('subclass-operand-changed:%s:%s' % (tag, name), {'class': tag, 'operation': name, 'D': D, 'P': P, 'shape': shape}); return
+        ctx.ok('subclass-operands', ('subclass', tag, name, D, shape))
+
+
 def run_case(ctx, case):
     if case['kind'] == 'pool':
         return pool.run_host(case)
@@ -168,6 +208,8 @@ def run_case(ctx, case):
         return _iouter(ctx, case['params'], gen.rng_of(case))
     if case['kind'] == 'retained':
         return _retained(ctx, case['params'], gen.rng_of(case))
+    if case['kind'] == 'subclass':
+        return _subclass(ctx, case['params'], gen.rng_of(case))
     p = case['params']
     rng = gen.rng_of(case)
     D, P, shape, op = p['D'], p['P'], tuple(p['shape']), p['op']
